@@ -558,6 +558,10 @@ pub fn replay_main<W: World>(v: &Value) -> i32 {
     let a = run_isolated(&w, &mut st);
     let b = run_isolated(&w, &mut st);
     println!("replay log_hash={:016x} (second execution {:016x}); recorded {}", a.log_hash, b.log_hash, v["log_hash"]);
+    let rec = v["log_hash"].as_str().unwrap_or("");
+    if rec.len() == 16 {
+        println!("event-log hash equals the recorded one: {}", if format!("{:016x}", a.log_hash) == rec { "yes (exact reproduction)" } else { "no (the tree or the simulator changed since the file was written)" });
+    }
     match a.violation {
         Some(x) => {
             println!("violation class={} detail={}", x.class, x.detail);
